@@ -253,6 +253,8 @@ class Gen:
             else:
                 sc.props_defined.discard(name)
             out = [[0, name, decos, asy, body]]
+            if wrap != 3 and r.random() < 0.15:
+                out.append(self.expr_str())      # a string statement right after a function / method
             if wrap == 3 and r.random() < 0.15:
                 out.append(self.expr_str())      # a string statement right after a property: nobody's docstring
             return out
@@ -282,8 +284,16 @@ class Gen:
             if r.random() < 0.5:
                 body.append(self.expr_str())
             body += self.stmts(inner, depth + 1, r.randint(0, 4))
+            if r.random() < 0.45:
+                nm2 = r.choice(AN + ['z0', 'z1'])
+                if not (nm2 in inner.env and inner.env[nm2][0] in ('fun', 'class')):
+                    body.append([2, [[0, nm2]], [0, self.encode_value(self.atom())]])      # the body ENDS with an undocumented assignment
+                    inner.env[nm2] = ('data', None)
             env[name] = ('class', exc)
-            return [[1, name, bases, body]]
+            res_c: List[Any] = [[1, name, bases, body]]
+            if r.random() < 0.3:
+                res_c.append(self.expr_str())          # a string statement right after the class: nobody's docstring
+            return res_c
         if k < 0.58:                                                     # assignment
             pool = AN + VN if in_class else VN
             n_t = 1 if r.random() < 0.85 else 2
@@ -353,39 +363,48 @@ class Gen:
         if k < 0.70:
             return [self.expr_str()]
         if k < 0.90 and depth < self.max_depth:                          # compound statements
-            c = r.randint(0, 6)
-            if c == 0:
-                body = self.stmts(sc, depth + 1, r.randint(1, 3))
-                return [[6, 1, body, self.other_suite(sc, depth), r.randint(0, 3)]]
-            if c == 1:                                                   # untaken if
-                return [[6, 2, self.other_suite(sc, depth), self.other_suite(sc, depth), r.randint(0, 3)]]
-            if c == 2:                                                   # __main__ block: anything, never documented
-                saved, sub, selfn, props = dict(env), self.sub, set(sc.selfnames), set(sc.props_defined)
-                g = Gen(r, 0.0, self.max_depth, min(self.budget, 4))
-                body = g.stmts(Scope(sc.kind), depth + 1, r.randint(1, 3))
-                self.budget -= 2
-                sc.env, self.sub = saved, sub
-                return [[6, 0, body, self.other_suite(sc, depth), 0]]
-            if c == 3:
-                body = self.stmts(sc, depth + 1, r.randint(1, 3))
-                return [[7, body, self.other_suite(sc, depth), self.other_suite(sc, depth), self.other_suite(sc, depth)]]
-            if c == 4:
-                return [[8, self.stmts(sc, depth + 1, r.randint(1, 3)), r.randint(0, 1)]]
-            if c == 5:
-                t = r.choice(AUX)
-                if self.out():
-                    t = r.choice(FN + VN)
-                if t in env and env[t][0] != 'aux':
-                    self.sub = False
-                env[t] = ('aux',)
-                return [[9, t, self.stmts(sc, depth + 1, r.randint(1, 3)), self.other_suite(sc, depth)]]
-            return [[10, self.stmts(sc, depth + 1, r.randint(1, 3)), self.other_suite(sc, depth)]]
+            res_b = self.compound(sc, depth)
+            if r.random() < 0.2:
+                res_b.append(self.expr_str())    # a string statement right after a block
+            return res_b
         if k < 0.94:
             self.imp_n += 1
             nm = 'imp_%d' % self.imp_n
             env[nm] = ('aux',)
             return [[11, [nm], r.choice(['import os as %s', 'from os import path as %s', 'import sys as %s']) % nm]]
         return [[12, r.choice(['pass', "len('')", '...'])]]
+
+    def compound(self, sc: Scope, depth: int) -> List[Any]:
+        r = self.rng
+        env = sc.env
+        c = r.randint(0, 6)
+
+        if c == 0:
+            body = self.stmts(sc, depth + 1, r.randint(1, 3))
+            return [[6, 1, body, self.other_suite(sc, depth), r.randint(0, 3)]]
+        if c == 1:                                                   # untaken if
+            return [[6, 2, self.other_suite(sc, depth), self.other_suite(sc, depth), r.randint(0, 3)]]
+        if c == 2:                                                   # __main__ block: anything, never documented
+            saved, sub, selfn, props = dict(env), self.sub, set(sc.selfnames), set(sc.props_defined)
+            g = Gen(r, 0.0, self.max_depth, min(self.budget, 4))
+            body = g.stmts(Scope(sc.kind), depth + 1, r.randint(1, 3))
+            self.budget -= 2
+            sc.env, self.sub = saved, sub
+            return [[6, 0, body, self.other_suite(sc, depth), 0]]
+        if c == 3:
+            body = self.stmts(sc, depth + 1, r.randint(1, 3))
+            return [[7, body, self.other_suite(sc, depth), self.other_suite(sc, depth), self.other_suite(sc, depth)]]
+        if c == 4:
+            return [[8, self.stmts(sc, depth + 1, r.randint(1, 3)), r.randint(0, 1)]]
+        if c == 5:
+            t = r.choice(AUX)
+            if self.out():
+                t = r.choice(FN + VN)
+            if t in env and env[t][0] != 'aux':
+                self.sub = False
+            env[t] = ('aux',)
+            return [[9, t, self.stmts(sc, depth + 1, r.randint(1, 3)), self.other_suite(sc, depth)]]
+        return [[10, self.stmts(sc, depth + 1, r.randint(1, 3)), self.other_suite(sc, depth)]]
 
     def module(self, n_stmts: int) -> Tuple[List[Any], Scope]:
         sc = Scope('module')
